@@ -16,6 +16,8 @@ use std::sync::{Arc, Mutex};
 #[derive(Debug)]
 pub struct Cell {
     pub id: u64,
+    /// set by a Bump operation; what the value-dependent retain predicate looks at
+    pub bumped: std::sync::atomic::AtomicBool,
 }
 impl CounterFn for Cell {
     fn increment(&self, _: u64) {}
@@ -38,7 +40,7 @@ impl Counting {
     fn mk(&self, kind: u8, key: &Key) -> Arc<Cell> {
         let id = self.next.fetch_add(1, Ordering::SeqCst) + 1;
         self.log.lock().unwrap().push((kind, format!("{}", key), id));
-        Arc::new(Cell { id })
+        Arc::new(Cell { id, bumped: std::sync::atomic::AtomicBool::new(false) })
     }
 }
 pub struct CountingRef(pub Arc<Counting>);
@@ -176,6 +178,12 @@ pub enum Op {
     Delete { kind: u8, key: usize, variant: u8 },
     Clear,
     Retain { kind: u8, keep: u8 },
+    /// get_or_create whose closure marks the storage ("the metric was updated")
+    Bump { kind: u8, key: usize, variant: u8 },
+    /// retain with a predicate on the *storage*: keep what has been bumped
+    RetainBumped { kind: u8 },
+    /// retain whose predicate keeps everything but panics when it meets this key (caught)
+    RetainPanic { kind: u8, key: usize },
     Handles { kind: u8 },
     Visit { kind: u8 },
 }
@@ -211,12 +219,15 @@ enum Sub {
     Get(u8, usize, Option<u64>),
     Delete(u8, usize, bool),
     DelIfPresent(u8, usize),
+    Bump(u8, usize, u64),
+    DelIfUnbumped(u8, usize),
 }
 
 #[derive(Clone, PartialEq, Eq, Hash, Debug, Default)]
 struct MapModel {
     map: BTreeMap<(u8, usize), u64>,
     used: BTreeSet<u64>,
+    bumped: BTreeSet<u64>,
 }
 
 impl Model for MapModel {
@@ -238,6 +249,31 @@ impl Model for MapModel {
             Sub::Delete(k, key, b) => self.map.remove(&(*k, *key)).is_some() == *b,
             Sub::DelIfPresent(k, key) => {
                 self.map.remove(&(*k, *key));
+                true
+            }
+            Sub::Bump(k, key, id) => {
+                let ok = match self.map.get(&(*k, *key)) {
+                    Some(cur) => cur == id,
+                    None => {
+                        if self.used.contains(id) {
+                            return false;
+                        }
+                        self.used.insert(*id);
+                        self.map.insert((*k, *key), *id);
+                        true
+                    }
+                };
+                if ok {
+                    self.bumped.insert(*id);
+                }
+                ok
+            }
+            Sub::DelIfUnbumped(k, key) => {
+                if let Some(id) = self.map.get(&(*k, *key)).copied() {
+                    if !self.bumped.contains(&id) {
+                        self.map.remove(&(*k, *key));
+                    }
+                }
                 true
             }
         }
@@ -292,6 +328,46 @@ fn do_op(reg: &Registry<Key, CountingRef>, op: &Op) -> Res {
         }),
         Op::Clear => {
             reg.clear();
+            Res::Unit
+        }
+        Op::Bump { kind, key, variant } => with_key(*key, *variant, |k| {
+            let bump = |c: &Arc<Cell>| {
+                c.bumped.store(true, Ordering::SeqCst);
+                c.id
+            };
+            Res::Id(match kind {
+                0 => reg.get_or_create_counter(k, bump),
+                1 => reg.get_or_create_gauge(k, bump),
+                _ => reg.get_or_create_histogram(k, bump),
+            })
+        }),
+        Op::RetainBumped { kind } => {
+            let f = |_: &Key, c: &Arc<Cell>| c.bumped.load(Ordering::SeqCst);
+            match kind {
+                0 => reg.retain_counters(f),
+                1 => reg.retain_gauges(f),
+                _ => reg.retain_histograms(f),
+            }
+            Res::Unit
+        }
+        Op::RetainPanic { kind, key } => {
+            let pk = *key;
+            let f = |k: &Key, _: &Arc<Cell>| {
+                if logical_of(k) == Some(pk) {
+                    std::panic::resume_unwind(Box::new(OpPanic));
+                }
+                true
+            };
+            let r = std::panic::catch_unwind(std::panic::AssertUnwindSafe(|| match kind {
+                0 => reg.retain_counters(f),
+                1 => reg.retain_gauges(f),
+                _ => reg.retain_histograms(f),
+            }));
+            if let Err(p) = r {
+                if !p.is::<OpPanic>() {
+                    std::panic::resume_unwind(p);
+                }
+            }
             Res::Unit
         }
         Op::Retain { kind, keep } => {
@@ -368,7 +444,16 @@ impl Scenario for C06Registry {
                     6 => PANIC_VARIANT,
                     _ => 0,
                 };
-                let op = match r.below(20) {
+                let op = match r.below(23) {
+                    20 => Op::Bump { kind, key, variant: variant.min(SHARED_VARIANT) },
+                    21 => Op::RetainBumped { kind },
+                    22 => {
+                        if r.chance(500) {
+                            Op::RetainPanic { kind, key }
+                        } else {
+                            Op::Bump { kind, key, variant: 0 }
+                        }
+                    }
                     0..=8 => Op::Create { kind, key, variant },
                     9..=11 => Op::Get { kind, key, variant },
                     12..=14 => Op::Delete { kind, key, variant },
@@ -379,7 +464,7 @@ impl Scenario for C06Registry {
                 };
                 let cost = match op {
                     Op::Clear => (nkeys * nkinds as usize) as i32,
-                    Op::Retain { .. } | Op::Handles { .. } | Op::Visit { .. } => nkeys as i32,
+                    Op::Retain { .. } | Op::RetainBumped { .. } | Op::Handles { .. } | Op::Visit { .. } => nkeys as i32,
                     _ => 1,
                 };
                 if budget - cost < 0 {
@@ -520,6 +605,14 @@ fn check(plan: &Plan, h: &[Ev], storage: &Arc<Counting>, rep: &mut RunReport) ->
                     }
                 }
             }
+            (Op::Bump { kind, key, .. }, Res::Id(id)) => calls.push(Call { inv: e.inv, ret: e.ret, op: Sub::Bump(*kind, *key, *id) }),
+            (Op::RetainBumped { kind }, _) => {
+                for key in 0..nk {
+                    calls.push(Call { inv: e.inv, ret: e.ret, op: Sub::DelIfUnbumped(*kind, key) });
+                }
+            }
+            // a retain whose predicate rejects nothing removes nothing, whether or not it panics
+            (Op::RetainPanic { .. }, _) => {}
             (Op::Retain { kind, keep }, _) => {
                 for key in 0..nk {
                     if keep & (1 << key) == 0 {
@@ -549,11 +642,11 @@ fn check(plan: &Plan, h: &[Ev], storage: &Arc<Counting>, rep: &mut RunReport) ->
     }
     // prune DelIfPresent sub-ops for kinds never used (keeps the history short)
     let used_kinds: BTreeSet<u8> = calls.iter().filter_map(|c| match &c.op {
-        Sub::Create(k, ..) => Some(*k),
+        Sub::Create(k, ..) | Sub::Bump(k, ..) => Some(*k),
         _ => None,
     }).collect();
     calls.retain(|c| match &c.op {
-        Sub::DelIfPresent(k, _) => used_kinds.contains(k),
+        Sub::DelIfPresent(k, _) | Sub::DelIfUnbumped(k, _) => used_kinds.contains(k),
         _ => true,
     });
     rep.count("subops", calls.len() as u64);
